@@ -803,7 +803,17 @@ func (x *runner) exec(o op) {
 		// can the cookie hold this state at all? (securecookie length limit; the real Encode decides)
 		encodable := p.w.twin[0].SetCookie(httptest.NewRecorder(), "state", o.state) == nil
 		p.states = append([]string{o.state}, p.states...)
+		// the login request itself is input: a third of the logins come from a link / form that
+		// carries parameters of its own (a crafted login link)
+		lq, lpost := loginQuery(x.r, o.state)
 		req := httptest.NewRequest("GET", "https://rp.example/login", nil)
+		switch {
+		case len(lq) > 0 && lpost:
+			req = httptest.NewRequest("POST", "https://rp.example/login", strings.NewReader(encodeQuery(lq)))
+			req.Header.Set("Content-Type", "application/x-www-form-urlencoded")
+		case len(lq) > 0:
+			req = httptest.NewRequest("GET", "https://rp.example/login?"+encodeQuery(lq), nil)
+		}
 		attach(req, x.j)
 		rec := httptest.NewRecorder()
 		ran := x.arm(o.during)
@@ -825,6 +835,9 @@ func (x *runner) exec(o op) {
 			}
 		}
 		opCoq := emit.Ctor("OStart", emit.Str(o.state), emit.Str(verifier))
+		if len(lq) > 0 {
+			opCoq = emit.Ctor("OStartQ", emit.Str(o.state), emit.Str(verifier), pairs(lq))
+		}
 		if !encodable {
 			opCoq = emit.Ctor("OStartFail", emit.Str(o.state))
 		}
@@ -856,7 +869,7 @@ func (x *runner) exec(o op) {
 		}
 		// a login reads nothing from the jar: its operation is listed when its response arrives,
 		// i.e. after the operations that ran during it
-		x.emit(opCoq, evCoq, map[string]any{"op": "start", "overlapped_by": len(o.during), "state_len": len(o.state), "state": clip(o.state), "location": clip(loc)})
+		x.emit(opCoq, evCoq, map[string]any{"op": "start", "login_query": clipQ(lq), "login_post": lpost, "overlapped_by": len(o.during), "state_len": len(o.state), "state": clip(o.state), "location": clip(loc)})
 		for _, c := range cs {
 			if !c.del {
 				x.minted = append(x.minted, c.e)
@@ -948,6 +961,39 @@ func (x *runner) exec(o op) {
 		x.emit(emit.Ctor("ODel", emit.Str(o.name)), "EvNone", map[string]any{"op": "del", "name": o.name})
 		x.j = x.j.del(o.name)
 	}
+}
+
+// loginQuery: the parameters on the request that hits AuthURLHandler.  Every parameter of the
+// authorization request that the RP mints or configures (challenge, method, state, client,
+// redirect URI, scope, response type), harmless ones a login link legitimately carries, unknown
+// ones, case variants, repeated ones, several at once; in the URL or as a POST form.
+func loginQuery(r drv.Rand, state string) (q [][2]string, post bool) {
+	if !r.Chance(1, 3) {
+		return nil, false
+	}
+	pool := [][][2]string{
+		{{"code_challenge", "attacker-chosen-challenge"}, {"code_challenge_method", "plain"}},
+		{{"code_challenge", "E9Melhoa2OwvFrEMTJguCHaoeK1t8URWbuGJSstw-cM"}, {"code_challenge_method", "S256"}},
+		{{"code_challenge", "attacker-chosen-challenge"}},
+		{{"code_challenge_method", "plain"}},
+		{{"code_challenge", ""}, {"code_challenge_method", ""}},
+		{{"code_challenge", "a"}, {"code_challenge", "b"}, {"code_challenge_method", "plain"}, {"code_challenge_method", "S256"}},
+		{{"Code_Challenge", "x"}, {"CODE_CHALLENGE_METHOD", "plain"}, {"code_challenge ", "y"}},
+		{{"state", "evil-state"}}, {{"state", state}, {"state", "evil-state"}}, {{"state", ""}},
+		{{"client_id", "evil-client"}}, {{"redirect_uri", "https://evil.example/cb"}}, {{"scope", "admin offline_access"}},
+		{{"response_type", "token"}}, {{"response_type", "code id_token"}, {"response_mode", "fragment"}},
+		{{"nonce", "n-0S6_WzA2Mj"}}, {{"prompt", "none"}}, {{"login_hint", "alice@example.com"}, {"ui_locales", "de fr"}},
+		{{"requestID", "1234"}}, {{"utm_source", "mail"}, {"x", ""}}, {{"request", "eyJhbGciOiJub25lIn0.e30."}}, {{"request_uri", "https://evil.example/r"}},
+		{{"code_verifier", "attacker-verifier"}}, {{"pkce", "off"}}, {{"code", "c"}, {"error", "access_denied"}},
+	}
+	q = append(q, drv.Pick(r, pool)...)
+	if r.Chance(1, 3) {
+		q = append(q, drv.Pick(r, pool)...)
+	}
+	if r.Chance(1, 4) {
+		q = append(q, drv.Pick(r, pool)...)
+	}
+	return q, r.Chance(1, 4)
 }
 
 func sortedParams(rawq string) [][2]string {
@@ -1662,7 +1708,7 @@ func main() {
 			Human: map[string]any{"config": fmt.Sprintf("%+v", c), "jar": j0.coq(), "steps": res.human}})
 	}
 	err = w.Close(emit.Meta{Property: "C17", Tier: cfg.Tier, Seed: cfg.Seed,
-		Rule: "each case = one way of building the RP + initial jar + history in one browser jar. Building the RP: constructor rp.NewRelyingPartyOAuth (5 of 9 cases) or rp.NewRelyingPartyOIDC against a mock OP (4 of 9; discovery document with code_challenge_methods_supported absent / null / [] / [S256] / [plain] / [plain,S256] / case and white-space variants of S256 / unknown methods (18 variants, cycled), scopes_supported absent / same / superset / subset / disjoint / upper-case / empty / null relative to the configured scopes, response types, grant types, token endpoint auth methods, response modes, unknown members; ID tokens signed by the mock OP, also token responses without id_token), the option list IN ORDER (WithPKCE / WithCookieHandler once or several times, earlier ones with a foreign CookieHandler, the last one with the RP's keys; WithJWTProfile and the neutral options at random positions), in 1 of 4 cases a second RP with the opposite PKCE setting built and used afterwards in the same process; client (also long / keyword-like), redirect URI, scopes (also 61 scopes, duplicates), URL options, auth style, cookie keys: hash key of 16/32/33/48/64/65/100 bytes, block key none/16/24/32. kind=pair: scripted jar (valid / other value / minted by a foreign CookieHandler whose keys are near misses of the RP's: differing tail behind a 64/32/16/8-byte prefix, prefix or extension of the hash key, same hash key with other block key, first byte, unrelated / other name / swapped / truncated / flipped / random / plaintext / missing / duplicate cookies) and one callback query; kind=ordering: every interleaving of 2 or 3 logins and their callbacks, cycled; kind=overlap: requests that run re-entrantly, on the same handler values, inside another request's option evaluation: login inside login (1st of 2, 2nd of 3, twice, after a finished flow), login+callback inside a callback, double-submitted callback, callback inside a login; states: short / empty / non-ASCII / 255-2000 bytes with shared prefixes / too long for the cookie; callback query shapes: state present / absent / empty / duplicated (same, different, first or last matching) / in the POST body vs the URL, with or without code and error; every 5th callback state is a near miss (prefix, suffix, case, Unicode case-folding partners, surrounding white space, trailing slash, one byte, cut at 64/128/255/256/257, tampered tail); every 8th code is empty / keyword-like / > 4 KiB; kind=history: random logins (some overlapped), callbacks (GET/POST, lost responses), deletions and unacceptable foreign cookie writes; kind=replay: histories that also re-insert older validly minted cookies. In 2 of 5 cases of every kind 1-3 OTHER API calls on the same RP value (rp.ClientCredentials once / twice, RefreshTokens, Userinfo, EndSession, RevokeToken, DeviceAuthorization with the RP's own or other scopes, CodeExchange, GenerateAndStoreCodeChallenge, AuthURL with other options, JWT profile assertion; mock OP endpoints for all of them) are inserted before / between / after the browser's operations, each followed by rp.AuthURL(probe-state, rp), which must render the configured values; the RP gets the driver's own copy of the scopes slice (spare capacity 4), compared with the configured scopes after each call; scope lists with offline_access / openid at every position. Non-trivial = the model's path class != 0 (anything beyond 'no state cookie in the jar'); distinct = distinct (input, path).",
+		Rule: "each case = one way of building the RP + initial jar + history in one browser jar. Building the RP: constructor rp.NewRelyingPartyOAuth (5 of 9 cases) or rp.NewRelyingPartyOIDC against a mock OP (4 of 9; discovery document with code_challenge_methods_supported absent / null / [] / [S256] / [plain] / [plain,S256] / case and white-space variants of S256 / unknown methods (18 variants, cycled), scopes_supported absent / same / superset / subset / disjoint / upper-case / empty / null relative to the configured scopes, response types, grant types, token endpoint auth methods, response modes, unknown members; ID tokens signed by the mock OP, also token responses without id_token), the option list IN ORDER (WithPKCE / WithCookieHandler once or several times, earlier ones with a foreign CookieHandler, the last one with the RP's keys; WithJWTProfile and the neutral options at random positions), in 1 of 4 cases a second RP with the opposite PKCE setting built and used afterwards in the same process; client (also long / keyword-like), redirect URI, scopes (also 61 scopes, duplicates), URL options, auth style, cookie keys: hash key of 16/32/33/48/64/65/100 bytes, block key none/16/24/32. kind=pair: scripted jar (valid / other value / minted by a foreign CookieHandler whose keys are near misses of the RP's: differing tail behind a 64/32/16/8-byte prefix, prefix or extension of the hash key, same hash key with other block key, first byte, unrelated / other name / swapped / truncated / flipped / random / plaintext / missing / duplicate cookies) and one callback query; kind=ordering: every interleaving of 2 or 3 logins and their callbacks, cycled; kind=overlap: requests that run re-entrantly, on the same handler values, inside another request's option evaluation: login inside login (1st of 2, 2nd of 3, twice, after a finished flow), login+callback inside a callback, double-submitted callback, callback inside a login; states: short / empty / non-ASCII / 255-2000 bytes with shared prefixes / too long for the cookie; callback query shapes: state present / absent / empty / duplicated (same, different, first or last matching) / in the POST body vs the URL, with or without code and error; every 5th callback state is a near miss (prefix, suffix, case, Unicode case-folding partners, surrounding white space, trailing slash, one byte, cut at 64/128/255/256/257, tampered tail); every 8th code is empty / keyword-like / > 4 KiB; kind=history: random logins (some overlapped), callbacks (GET/POST, lost responses), deletions and unacceptable foreign cookie writes; kind=replay: histories that also re-insert older validly minted cookies. A third of ALL logins are requests that carry parameters of their own (OStartQ: code_challenge / code_challenge_method / state / client_id / redirect_uri / scope / response_type / nonce / prompt / login_hint / request / unknown names, case variants, repeated, several at once; URL query or POST form); the authorization URL must carry every protected parameter exactly once. In 2 of 5 cases of every kind 1-3 OTHER API calls on the same RP value (rp.ClientCredentials once / twice, RefreshTokens, Userinfo, EndSession, RevokeToken, DeviceAuthorization with the RP's own or other scopes, CodeExchange, GenerateAndStoreCodeChallenge, AuthURL with other options, JWT profile assertion; mock OP endpoints for all of them) are inserted before / between / after the browser's operations, each followed by rp.AuthURL(probe-state, rp), which must render the configured values; the RP gets the driver's own copy of the scopes slice (spare capacity 4), compared with the configured scopes after each call; scope lists with offline_access / openid at every position. Non-trivial = the model's path class != 0 (anything beyond 'no state cookie in the jar'); distinct = distinct (input, path).",
 		Extra: map[string]any{"orderings_2": len(ord2), "orderings_3": len(ord3), "ordering_cases": ordIdx, "dropped": dropped},
 	})
 	if err != nil {
